@@ -117,7 +117,9 @@ class GeneralInstanceGenerator(InstanceGenerator):
         if num_machines is None:
             min_num_machines, max_num_machines = self.num_machines_range
             if not self.allow_less_jobs_than_machines:
-                min_num_machines = min(num_jobs, max_num_machines)
+                # No more machines than jobs
+                max_num_machines = min(num_jobs, max_num_machines)
+                min_num_machines = min(min_num_machines, max_num_machines)
             num_machines = self.rng.randint(
                 min_num_machines, max_num_machines
             )
